@@ -43,6 +43,46 @@ type errSource struct {
 
 // errSources lists the error-like results of calls in fn; unusedCalls are calls with an
 // error-like result that is never extracted/used.
+// onlyDeferred: fn runs only as a deferred call — a function literal whose one use is a defer
+// statement, or a function all of whose call sites are defer statements. (A callback handed to
+// an iterator, or a helper called in the middle of a loop, also "has nothing left to do" after
+// its last call, but its caller has: fourth audit, `lo.ForEach(mdwares, func(m) { _ = m(req) })`.)
+func (r *Run) onlyDeferred(fn *ssa.Function) bool {
+	n := 0
+	if fn.Parent() != nil {
+		for _, ins := range allInstrs(fn.Parent()) {
+			mc, ok := ins.(*ssa.MakeClosure)
+			if !ok || mc.Fn != ssa.Value(fn) || mc.Referrers() == nil {
+				continue
+			}
+			for _, ref := range *mc.Referrers() {
+				if _, dbg := ref.(*ssa.DebugRef); dbg {
+					continue
+				}
+				d, ok := ref.(*ssa.Defer)
+				if !ok || d.Call.Value != ssa.Value(mc) {
+					return false
+				}
+				n++
+			}
+		}
+		// a literal without free variables is referenced as a plain function value
+		for _, ins := range allInstrs(fn.Parent()) {
+			if d, ok := ins.(*ssa.Defer); ok && d.Call.Value == ssa.Value(fn) {
+				n++
+			}
+		}
+		return n > 0 && len(r.P.CG.In[fn]) <= n
+	}
+	for _, e := range r.P.CG.In[fn] {
+		if _, ok := e.Site.(*ssa.Defer); !ok {
+			return false
+		}
+		n++
+	}
+	return n > 0
+}
+
 // lastEffect: the call is an ordinary call (not go/defer) in a function without results, and
 // nothing follows it on any path but the return.
 func lastEffect(fn *ssa.Function, ci ssa.CallInstruction) bool {
@@ -1259,8 +1299,8 @@ func ruleErr(sc errScope) ruleFn {
 					r.OK("R6.drop", name, construct, site, "callee provably never fails: every return of its error result is nil")
 				} else if reason, ok := useTable(r, errTable, name+"/"+construct); ok {
 					r.Tabled("R6.drop", name, construct, site, "err", reason)
-				} else if lastEffect(fn, d.call) {
-					r.OK("R6.drop", name, construct, site, "the call is the last thing the function does and the function has no result to report a failure with: leaving is all that `if err != nil { return }` would do")
+				} else if lastEffect(fn, d.call) && r.onlyDeferred(fn) {
+					r.OK("R6.drop", name, construct, site, "the call is the last thing a deferred function does (it runs when the enclosing function is over and has no result to report a failure with): leaving is all that `if err != nil { return }` would do")
 				} else {
 					r.Bad("R6.drop", name, construct, site, "the error result of "+d.desc+" is discarded: a failure there goes unnoticed")
 				}
